@@ -7,6 +7,7 @@ import (
 	"net/netip"
 	"os"
 	"runtime"
+	"sync"
 	"sync/atomic"
 	"time"
 
@@ -114,6 +115,88 @@ func runC09Disc(o *opts) (*summary, error) {
 			"goroutines_before": gl0, "goroutines_after": gl1, "fds_before": fl0, "fds_after": fl1 - 0,
 			"elapsed_max_ms": 0, "elapsed_min_ms": 1 << 20, "T_ms": 0}, "quiesce", "listen-busy")
 	}
+	// discoveries that overlap on an EPHEMERAL bind port (explicit address, port 0) have nothing to queue for: each of them
+	// returns after T, not after k x T
+	{
+		ue := uhppote.NewUHPPOTE(bind, types.BroadcastAddr{AddrPort: udpAddrPort(bc)}, types.ListenAddr{}, timeout, nil, false)
+		g0, f0 := settle()
+		jm := startJitterMonitor()
+		maxEl, minEl := time.Duration(0), time.Hour
+		var mu sync.Mutex
+		for round := 0; round < 3; round++ {
+			var wg sync.WaitGroup
+			for k := 0; k < 3; k++ {
+				wg.Add(1)
+				go func() {
+					defer wg.Done()
+					t0 := time.Now()
+					ue.GetDevices()
+					el := time.Since(t0)
+					mu.Lock()
+					if el > maxEl {
+						maxEl = el
+					}
+					if el < minEl {
+						minEl = el
+					}
+					mu.Unlock()
+				}()
+			}
+			wg.Wait()
+		}
+		jm.stop()
+		time.Sleep(2 * timeout)
+		g1, f1 := settle()
+		w.put(M{"op": "Quiesce", "what": "overlapped-discovery-ephemeral-port", "disturbed": jm.max() > int64(timeout/time.Microsecond)*15/100, "jitter_us": jm.max(), "calls": 9,
+			"goroutines_before": g0, "goroutines_after": g1, "fds_before": f0, "fds_after": f1,
+			"elapsed_max_ms": int(maxEl / time.Millisecond), "elapsed_min_ms": int(minEl / time.Millisecond), "T_ms": int(timeout / time.Millisecond)}, "quiesce", "overlap-eph")
+	}
+	// a discovery that cannot bind its fixed port fails - and the next one, once the port is free, runs as if nothing had happened
+	{
+		probe := listenUDP()
+		fixed := udpAddrPort(probe)
+		uf := uhppote.NewUHPPOTE(types.BindAddr{AddrPort: fixed}, types.BroadcastAddr{AddrPort: udpAddrPort(bc)}, types.ListenAddr{}, timeout, nil, false)
+		g0, f0 := settle()
+		failed := 0
+		for i := 0; i < 3; i++ {
+			// (bounded: a call that never comes back is what is being looked for, not something to wait for)
+			done := make(chan error, 1)
+			go func() { _, err := uf.GetDevices(); done <- err }()
+			select {
+			case err := <-done:
+				if err != nil {
+					failed++
+				}
+			case <-time.After(6 * timeout):
+			}
+		}
+		probe.Close()
+		jm := startJitterMonitor()
+		maxEl, minEl := time.Duration(0), time.Hour
+		for i := 0; i < 3; i++ {
+			done := make(chan time.Duration, 1)
+			t0 := time.Now()
+			go func() { uf.GetDevices(); done <- time.Since(t0) }()
+			var el time.Duration
+			select {
+			case el = <-done:
+			case <-time.After(6 * timeout):
+				el = 6 * timeout // never came back
+			}
+			if el > maxEl {
+				maxEl = el
+			}
+			if el < minEl {
+				minEl = el
+			}
+		}
+		jm.stop()
+		time.Sleep(2 * timeout)
+		g1, f1 := settle()
+		w.put(M{"op": "Quiesce", "what": "discovery-after-failed-bind", "disturbed": jm.max() > int64(timeout/time.Microsecond)*15/100, "jitter_us": jm.max(), "calls": 3, "failed": failed,
+			"goroutines_before": g0, "goroutines_after": g1, "fds_before": f0, "fds_after": f1,
+			"elapsed_max_ms": int(maxEl / time.Millisecond), "elapsed_min_ms": int(minEl / time.Millisecond), "T_ms": int(timeout / time.Millisecond)}, "quiesce", "failed-bind")
+	}
 	return w.close(), nil
 }
 
@@ -127,6 +210,13 @@ func discoveryDatagram(rng *rand.Rand, lt *layoutTables, cls string, prev []byte
 	serial := []byte{0x78, 0x37, 0x2a, 0x18} // 405419896: a configured controller
 	if cls == "valid2" || rng.Intn(3) == 0 {
 		serial = []byte{byte(rng.Intn(256)), byte(rng.Intn(256)), byte(rng.Intn(256)), byte(1 + rng.Intn(255))}
+	}
+	// "all field values": a controller that reports serial number 0 (or the top bit set) has answered like any other
+	switch rng.Intn(12) {
+	case 0:
+		serial = []byte{0, 0, 0, 0}
+	case 1:
+		serial = []byte{0xff, 0xff, 0xff, 0xff}
 	}
 	m := l.message(rng, 0x17, serial, "valid", nil)
 	if len(cls) > 6 && cls[:6] == "badlen" {
